@@ -148,6 +148,7 @@ func (s *solo) macroEmbargo() bool {
 	var lates []lateCall
 	for i := 0; i < nLate; i++ {
 		ac, snd := mk(true)
+		atomic.StoreInt32(&ac.pending, 1) // owned by the sender goroutine until issued
 		round.late = append(round.late, ac.uid)
 		via := 0
 		if hcap != nil && s.rng.Bool() {
@@ -173,6 +174,7 @@ func (s *solo) macroEmbargo() bool {
 				lc.ac.ans, lc.ac.release = a.ans.PipelineSend(ctx, ops, lc.send)
 			}
 			lc.ac.sendT1 = s.log.Stamp()
+			atomic.StoreInt32(&lc.ac.pending, 0)
 		}
 	})
 	s.count("app_calls_issued", int64(nLate))
@@ -346,7 +348,7 @@ func (s *solo) finish(closeEarly bool) {
 			if s.dead {
 				return
 			}
-			if ac.ans == nil {
+			if ac.answer() == nil {
 				// issued by an async sender that has not come to it yet
 				s.pumpUntil("async senders", func() bool { return atomic.LoadInt32(&s.asyncN) == 0 })
 			}
@@ -417,7 +419,7 @@ func (s *solo) finish(closeEarly bool) {
 		if s.dead {
 			return
 		}
-		if ac.ans == nil {
+		if ac.answer() == nil {
 			continue
 		}
 		if !ac.resolved {
